@@ -2,6 +2,7 @@ import Driver.Pixel
 import Driver.Geom
 import Driver.Render
 import Driver.Cascade
+import Driver.Links
 open Driver
 
 def step (line : String) : String :=
@@ -15,6 +16,8 @@ def step (line : String) : String :=
   | "sizebook" :: args => handleRender "sizebook" args
   | "tile" :: args => handleRender "tile" args
   | "light" :: args => handleRender "light" args
+  | "hrefchain" :: args => handleLinks "hrefchain" args
+  | "enterdef" :: args => handleLinks "enterdef" args
   | "casc" :: args => handleCascade "casc" args
   | "expand" :: args => handleCascade "expand" args
   | "attrclass" :: args => handleCascade "attrclass" args
